@@ -14,7 +14,7 @@ ASSUME = {
     "C14": ["presentations and dequeues observed through verif-tag hooks in sio/crew.go (RunMachine, ProcessMsg) and cross-checked against the recorder machines' own logs",
             "recorder machines (ECMAScript) append every message to bindings.log and emit bindings.table[id]",
             "a 'to' that is neither a string nor a list is treated as unrouted (weakest reading)",
-            "mcrew host: recorder machines a, b, c with an acyclic emission graph; every Process invocation observed at the process-locked hook; quiescence = no invocation for 60 ms; cmd/mdb's host is not driven"],
+            "mcrew host: recorder machines a, b, c with an acyclic emission graph; every Process invocation observed at the process-locked hook; quiescence = no invocation for 60 ms; cmd/mdb's Host.Process is driven by a second overlay driver (routing only: it does not re-process emissions)"],
     "C15": ["shadow store = fold of Result.Changed exactly as sio.Stdio folds it; records pass through JSON before a crew is booted from them",
             "a store without a timers record denotes the timers machine's default state; a record without state denotes start/{}",
             "restart equivalence claimed for commuting crews (recorder machines commute); outputs compared as bags of batches per message"],
@@ -92,13 +92,22 @@ def run(pid, tier, seed, replay):
         binary = vlib.build_overlay_test(wd, "cmd/mcrew", files)
         mout = os.path.join(wd, "mcrew_route.ndjson")
         service_checks.drive(binary, wd, "svc-route", mout, VERIF_SEED=seed, VERIF_N=120 if tier == "quick" else 2500)
+        # the debugger host (cmd/mdb): routing only (it does not re-process emissions by itself)
+        mdbbin = vlib.build_overlay_test(os.path.join(wd), "cmd/mdb", [os.path.join(vlib.VERIF, "harness/mdb/driver_test.go")])
+        mdbout = os.path.join(wd, "mdb_route.ndjson")
+        import subprocess
+        p = subprocess.run([mdbbin, "-test.run", "TestVerifDriver"], cwd=wd, env=dict(os.environ, VERIF_MODE="mdb-route", VERIF_OUT_FILE=mdbout,
+                           VERIF_SEED=str(seed), VERIF_N=str(300 if tier == "quick" else 6000)), stdout=subprocess.PIPE, stderr=subprocess.STDOUT, text=True)
+        if p.returncode != 0:
+            raise vlib.CannotRun("mdb overlay driver failed:\n" + p.stdout[-2000:])
+        open(mout, "a").write(open(mdbout).read())
         jd2 = vlib.fresh_dir(pid, "judge_mcrew")
         bad2, stats2, t2 = vlib.judge_cases(jd2, "Trace_McrewRoute.tla", "Trace_McrewRoute.cfg", mout)
         for b in bad2:
             c = b["case"]
             rep.reject("mcrew host: %s on %s" % (",".join(b["c14"]), c["raw"][:400]), b.get("sigs", []),
                        {"property": pid, "labels": b["c14"], "host": "mcrew", "case": c})
-        log("  judged %d mcrew routing histories, %d rejected; %s" % (t2["lines"], len(bad2), stats2))
+        log("  judged %d mcrew + mdb routing histories, %d rejected; %s" % (t2["lines"], len(bad2), stats2))
         extra_stats = {"mcrew." + k: v for k, v in stats2.items()}
         t["lines"] += t2["lines"]
         t["distinct"] += t2["distinct"]
